@@ -2,6 +2,7 @@ package vsched
 
 import (
 	"iter"
+	"runtime"
 	"unsafe"
 )
 
@@ -566,3 +567,13 @@ func (c *RCase[T]) execRaw() { c.val, c.ok = <-c.ch }
 
 //go:norace
 func (c *SCase[T]) execRaw() { c.ch <- c.v }
+
+// Unreachable is called by the default clause vrewrite adds to a select
+// without default. A goroutine that is being torn down ends here.
+//
+//go:norace
+func Unreachable() {
+	if g := cur(); g != nil && g.dying {
+		runtime.Goexit()
+	}
+}
